@@ -261,17 +261,16 @@ class Formulas(Family):
 
     def evaluate(self, cases):
         from harness.translate import gen_tucker
-        h, t = gen_tucker.sources()
-        read_lost = []
         try:
-            _, lost1 = gen_tucker.read_hosvd((gen_tucker.REPO / "pyttb" / "hosvd.py").read_text())
-            _, lost2 = gen_tucker.read_tucker((gen_tucker.REPO / "pyttb" / "tucker_als.py").read_text())
-            read_lost = list(lost1) + list(lost2)
+            h, t, read_lost = gen_tucker.sources()
         except Exception as e:  # noqa: BLE001
-            read_lost = [f"{type(e).__name__}: {e}"]
-        if read_lost:
-            # nothing to cross-check the translator against; the lost anchors are reported by the proof side (tie by
-            # correspondence only, thorough size)
+            h, t, read_lost = {}, {}, [f"{type(e).__name__}: {e}"]
+        # what the translator read: Python expressions over the parameter names of the generated definitions.  A
+        # definition whose anchor was lost has nothing to be cross-checked against (the pinned definition is in use; the
+        # lost anchor is reported by the proof side: tie by correspondence only, thorough size); the others still are.
+        have = {k: h[k]["python"] for k in ("eigsumthresh", "rank_cut", "slice_bound", "auto_marker") if k in h}
+        have.update({k: t[k]["python"] for k in ("normresidual", "fit", "fitchange", "stop", "iters") if k in t})
+        if not have:
             return [V("ok", f"translator lost anchors: {read_lost}", None, None, None, ["anchor-lost"], False) for _ in cases]
         reqs = [{"op": "c10_formulas", "scalar": "float", "tol": bits(c["tol"]), "normxsqr": bits(c["normxsqr"]),
                  "d": c["d"], "normX": bits(c["normX"]), "normCore": bits(c["normCore"]), "fitold": bits(c["fitold"]),
@@ -279,46 +278,61 @@ class Formulas(Family):
         models = drive(reqs)
         out = []
         for c, m in zip(cases, models):
-            class Core:
-                @staticmethod
-                def norm():
-                    return np.float64(c["normCore"])
             env = {"np": np, "abs": abs, "tol": c["tol"], "normxsqr": np.float64(c["normxsqr"]), "d": c["d"],
-                   "normX": np.float64(c["normX"]), "core": Core, "fitold": c["fitold"], "stoptol": c["stoptol"],
-                   "eigsum": np.array(c["eigsum"])}
+                   "normX": np.float64(c["normX"]), "normCore": np.float64(c["normCore"]), "fitold": c["fitold"],
+                   "stoptol": c["stoptol"], "eigsum": np.array(c["eigsum"])}
+            py = {}
             try:
-                py = {"eigsumthresh": float(eval(h["eigsumthresh"][2], dict(env)))}
-                env["eigsumthresh"] = py["eigsumthresh"]
-                env["normresidual"] = eval(t["normresidual"][3], dict(env))
-                py["normresidual"] = float(env["normresidual"])
-                env["fit"] = eval(t["fit"][3], dict(env))
-                py["fit"] = float(env["fit"])
-                env["fitchange"] = eval(t["fitchange"][3], dict(env))
-                py["fitchange"] = float(env["fitchange"])
-                py["stop"] = bool(eval(t["stop"][3], dict(env)))
-                try:
-                    py["rank_cut"] = int(eval(h["rank_cut"][3], dict(env)))
-                except IndexError:
-                    py["rank_cut"] = None
-                sl = eval(h["slice_bound"][2], {"V": np.arange(20).reshape(1, 20), "pi": np.arange(20), "ranks": [5], "k": 0})
-                py["slice_bound_5"] = int(sl.shape[1])
-                py["iters_7"] = int(eval(t["iters"][2], {"iteration": 7}))
-                mk = m["auto_marker"]
-                py["auto_marker"] = mk if (eval(h["auto_marker"][2], {"ranks": [mk], "k": 0})
-                                           and not eval(h["auto_marker"][2], {"ranks": [mk + 1], "k": 0})) else None
+                # inputs of a definition that was not read come from the model's (pinned) definition
+                env["eigsumthresh"] = float(eval(have["eigsumthresh"], dict(env))) if "eigsumthresh" in have \
+                    else unbits(m["eigsumthresh"])
+                if "eigsumthresh" in have:
+                    py["eigsumthresh"] = env["eigsumthresh"]
+                env["normresidual"] = eval(have["normresidual"], dict(env)) if "normresidual" in have \
+                    else np.float64(unbits(m["normresidual"]))
+                if "normresidual" in have:
+                    py["normresidual"] = float(env["normresidual"])
+                env["fit"] = eval(have["fit"], dict(env)) if "fit" in have else np.float64(unbits(m["fit"]))
+                if "fit" in have:
+                    py["fit"] = float(env["fit"])
+                env["fitchange"] = eval(have["fitchange"], dict(env)) if "fitchange" in have \
+                    else np.float64(unbits(m["fitchange"]))
+                if "fitchange" in have:
+                    py["fitchange"] = float(env["fitchange"])
+                if "stop" in have:
+                    py["stop"] = bool(eval(have["stop"], dict(env)))
+                if "rank_cut" in have:
+                    try:
+                        py["rank_cut"] = int(eval(have["rank_cut"], dict(env)))
+                    except IndexError:
+                        py["rank_cut"] = None
+                if "slice_bound" in have:
+                    sl = eval(have["slice_bound"], {"V": np.arange(20).reshape(1, 20), "pi": np.arange(20), "ranks": [5], "k": 0})
+                    py["slice_bound_5"] = int(sl.shape[1])
+                if "iters" in have:
+                    py["iters_7"] = int(eval(have["iters"], {"iteration": 7}))
+                if "auto_marker" in have:
+                    mk = m["auto_marker"]
+                    py["auto_marker"] = mk if (eval(have["auto_marker"], {"ranks": [mk], "k": 0})
+                                               and not eval(have["auto_marker"], {"ranks": [mk + 1], "k": 0})) else None
             except Exception as e:  # noqa: BLE001
                 out.append(V("corr", f"anchored Python expression could not be evaluated: {type(e).__name__}: {e}", None, m))
                 continue
             bad = []
             for k in ("eigsumthresh", "normresidual", "fit", "fitchange"):
+                if k not in py:
+                    continue
                 a, b = py[k], unbits(m[k])
                 # not bit-exact: numpy's `**` goes through pow(), and 1 - x cancels; a misread formula is O(1) off
                 if not (a == b or abs(a - b) <= 1e-13 * max(1.0, abs(a), abs(b))):
                     bad.append(k)
             for k in ("stop", "rank_cut", "slice_bound_5", "iters_7", "auto_marker"):
-                if py[k] != m[k]:
+                if k in py and py[k] != m[k]:
                     bad.append(k)
-            tags = ["stop" if py["stop"] else "continue", "cut-none" if py["rank_cut"] is None else "cut"]
+            tags = ["stop" if py.get("stop", m["stop"]) else "continue",
+                    "cut-none" if py.get("rank_cut", m["rank_cut"]) is None else "cut"]
+            if read_lost:
+                tags.append("anchor-lost")
             if bad:
                 out.append(V("corr", f"generated Lean formula differs from the Python source expression: {bad}", py, m, None, tags))
             else:
